@@ -32,6 +32,9 @@ func rootFunc(fn *ssa.Function) *ssa.Function {
 
 var familyCache = map[*ssa.Function]*Family{}
 
+// theWorld is set by main for helpers that need access-path rendering.
+var theWorld *World
+
 func familyOf(fn *ssa.Function) *Family {
 	root := rootFunc(fn)
 	if f, ok := familyCache[root]; ok {
@@ -687,6 +690,28 @@ func loadSources(load *ssa.UnOp, f func(ssa.Value)) {
 			f(st.Val)
 		}
 	case *ssa.FieldAddr:
+		// stores to the same access path (handles nested value-struct fields such as ev.ReplicateParam.Database);
+		// only stores that can execute before the load count
+		if theWorld != nil {
+			lp := theWorld.accessPath(a)
+			if !strings.Contains(lp, "?") {
+				for _, in := range fam.allInstr {
+					st, ok := in.(*ssa.Store)
+					if !ok {
+						continue
+					}
+					if _, isFA := st.Addr.(*ssa.FieldAddr); !isFA {
+						continue
+					}
+					if st.Parent() == load.Parent() && !instrReaches(st, load) {
+						continue
+					}
+					if theWorld.accessPath(st.Addr) == lp {
+						f(st.Val)
+					}
+				}
+			}
+		}
 		// field of an object: match stores to the same field of the same base object
 		base := baseObject(fam, a.X)
 		for _, in := range fam.allInstr {
